@@ -300,7 +300,11 @@ class TraitList(list):
             The modified list.
         """
 
-        if value < 1:
+        # Like the built-in list, accept any object that implements
+        # '__index__' as the multiplier (and reject everything else with a
+        # TypeError before the list is touched).
+        count = operator.index(value)
+        if count < 1:
             removed = self.copy()
             multiplied = super().__imul__(value)
             if removed:
@@ -682,7 +686,7 @@ class TraitListObject(TraitList):
             The modified list.
         """
 
-        self._validate_length(max(0, len(self) * value))
+        self._validate_length(max(0, len(self) * operator.index(value)))
         return super().__imul__(value)
 
     def __setitem__(self, key, value):
